@@ -100,8 +100,10 @@ func (m *Mirror) Hook(op constants.OpType, _ int64, ni string, s ygot.ValidatedG
 		}
 		return
 	}
+	// the consumer of the property folds ADD (carries the new entry) and DELETE (the removed one); a
+	// notification of any other type is not part of that contract and is left out of the fold
 	switch op {
-	case constants.Add, constants.Replace:
+	case constants.Add:
 		m.st[ni].PutParts(p)
 	case constants.Delete:
 		m.st[ni].DelParts(p)
